@@ -313,6 +313,25 @@ def c10_cases(tier):
                     return "two schema values share one variant"
                 return None
             yield case, oracle
+    # an SDL document with a declaration `enum Placeholder` (no values block) before the enum in use and another enum after it: the field
+    # is typed by ITS enum and that enum has its own values
+    for q_ph in ("query Q { status }", "query Q { status zone }"):
+        case = {"schema": "enum Placeholder enum Status { ACTIVE INACTIVE type } enum Zone { NORTH SOUTH } enum Last { X } type Query { status: Status! zone: Zone }", "query": q_ph, "options": {"mode": "cli"}}
+
+        def oracle_ph(res, q_ph=q_ph):
+            if res["exit"] != 0 or not res["out"] or not res["out"].get("ok"):
+                return None       # refusing a valueless enum declaration is a permitted outcome
+            t = norm(res["out"]["tokens"])
+            m = re.search(r"pubstatus:([^,}]*)", t)
+            if not m or m.group(1) != "Status":
+                return "field `status: Status!` (an enum declared after a valueless `enum Placeholder`) has the type %s (`%s`)" % (m.group(1) if m else "?", q_ph)
+            wanted = [("Status", ["ACTIVE", "INACTIVE", "type"])] + ([("Zone", ["NORTH", "SOUTH"])] if "zone" in q_ph else [])
+            for (en, vals) in wanted:
+                ser = sorted(w for (_, w) in re.findall(r'%s::([A-Za-z0-9_#]+)=>"([^"]*)"' % en, t))
+                if ser != sorted(vals):
+                    return "enum %s (declared after a valueless `enum Placeholder`) writes %s, its schema values are %s" % (en, ser, sorted(vals))
+            return None
+        yield case, oracle_ph
     # the same through both schema front-ends, with deprecated values (servers still send them)
     import vxbounded
     dvals = ["ACTIVE", ("LEGACY", ""), "where", ("OLD", "gone")]
@@ -371,6 +390,11 @@ def c06_cases(tier):
         # 4 type conditions
         ("k4a inline fragment on an unknown type", C06_SCHEMA, "query Q { pet { __typename ... on Nope { name } } }"),
         ("k4a fragment definition on an unknown type", C06_SCHEMA, "fragment F on Nope { name } query Q { me { name } }"),
+        ("k4a inline fragment on an unknown type whose body only asks for __typename", C06_SCHEMA, "query Q { pet { __typename ... on Nope { __typename } } }"),
+        ("k4a inline fragment on an unknown type at the operation root (body valid on Query)", C06_SCHEMA, "query Q { ... on Root { n } }"),
+        ("k4a inline fragment on an unknown type inside an object selection (body valid on the object)", C06_SCHEMA, "query Q { me { ... on Persona { name age } } }"),
+        ("k4a inline fragment on an unknown type inside an interface selection (body valid on the interface)", C06_SCHEMA, "query Q { named { __typename ... on Doge { name } } }"),
+        ("k4a inline fragment on an unknown type nested in a valid inline fragment", C06_SCHEMA, "query Q { pet { __typename ... on Dog { ... on Puppy { name } } } }"),
         ("k4b inline fragment on a non-member of the union", C06_SCHEMA, "query Q { pet { __typename ... on Person { name } } }"),
         ("k4b inline fragment on a non-implementor of the interface", C06_SCHEMA, "query Q { named { __typename ... on Rock { weight } } }"),
         ("k4b spread of a fragment on a non-member of the union", C06_SCHEMA, "fragment F on Rock { weight } query Q { pet { __typename ...F } }"),
@@ -846,7 +870,7 @@ def c02_cases(tier):
     # JSON / date_time / snake_kind / range_in: names whose spelling changes under normalization = rust (every mention and the
     # definition or alias must change together)
     schema = ("scalar Date scalar Money scalar JSON scalar date_time enum Kind { A B } enum snake_kind { a_b } enum Unused { X } interface Named { name: String } "
-              "type Dog implements Named { name: String born: Date kind: Kind owner: Person best: Named meta: JSON seen: date_time sk: snake_kind } type Cat implements Named { name: String price: Money } "
+              "type Dog implements Named { name: String born: Date kind: Kind owner: Person best: Named meta: JSON seen: date_time sk: snake_kind } type Cat implements Named { name: String price: Money owner: Person } "
               "type Person { name: String since: Date pets: [Pet!] bestie: Person } union Pet = Dog | Cat "
               "input Range { from: Date to: Date inner: Inner } input Inner { kind: Kind amount: Money again: Range tags: [String]! kinds: [Kind!]! } "
               "type Query { me(at: Date, range: Range, kind: Kind, n: Int, id: ID, ids: [ID!]): Person pet: Pet named: Named }")
@@ -863,6 +887,9 @@ def c02_cases(tier):
         "fragment Tree on Named { __typename name ... on Dog { owner { pets { __typename ...PetTree } } } } fragment PetTree on Pet { __typename ... on Dog { kind } } query Q { named { ...Tree } }",
         "fragment Anc on Named { __typename name ... on Dog { best { ...Anc } } } query Q { named { ...Anc } }",
         "fragment P on Person { name bestie { ...P } } query Q { me { ...P } }",
+        # the same object-typed field selected under two variants, and under a variant as well as on the interface itself: one struct each
+        "query Q { pet { __typename ... on Dog { name owner { name since } } ... on Cat { owner { name } } } }",
+        "query Q { named { __typename name ... on Dog { owner { name pets { __typename ... on Cat { owner { since } } ... on Dog { owner { name } } } } } ... on Cat { owner { since } } } }",
     ]
     known = set("Option Vec Box String bool i64 f64 u8 Self str super crate std serde Serialize Deserialize graphql_client".split())
     for q in queries:
@@ -1151,6 +1178,33 @@ def c08_cases(tier):
                     return "the same call (several extra derives) gives different token streams across calls / fresh processes"
         return None
     yield {"calls": [rich]}, oracle4
+    # calls that fail query VALIDATION deep inside a nested selection (not only loader failures), many of them, then valid calls
+    deep_s = os.path.join(d, "c08_deep_schema.graphql")
+    open(deep_s, "w").write("type N { v: Int n: N } union U = N type Query { n: N u: U }")
+    deep_bad = []
+    for k, body in enumerate(("n { n { n { n { n { n { nope } } } } } }", "n { n { n { n { v { x } } } } }", "u { __typename ... on N { n { n { n { ...Missing } } } } }")):
+        pth = os.path.join(d, "c08_deep_bad%d.graphql" % k)
+        open(pth, "w").write("query Q { %s }" % body)
+        deep_bad.append({"schema_path": deep_s, "query_path": pth, "options": {"mode": "cli"}})
+    deep_ok = os.path.join(d, "c08_deep_ok.graphql")
+    open(deep_ok, "w").write("query Q { n { v n { v n { v } } } u { __typename ... on N { v } } }")
+    deep_good = {"schema_path": deep_s, "query_path": deep_ok, "options": {"mode": "cli"}}
+    for reps in (1, 25):
+        hist_d = (deep_bad * reps) + [deep_good, ok]
+
+        def oracle_deep(res, hist_d=hist_d, reps=reps):
+            if res["exit"] != 0 or not res["out"]:
+                return "process died: %s" % res["stderr"]
+            rs = res["out"]["results"]
+            for c, r in zip(hist_d[-2:], rs[-2:]):
+                alone = run_case({"calls": [c]})
+                if not alone["out"] or not alone["out"]["results"][0].get("ok"):
+                    return "generation failed for a valid input in a fresh process"
+                if not r.get("ok") or r.get("tokens") != alone["out"]["results"][0].get("tokens"):
+                    return "a valid call issued after %d calls that failed query validation inside nested selections gives %s; alone in a fresh process it generates code" % (
+                        3 * reps, ("the error `%s`" % (r.get("error") or r.get("panic")))[:160] if not r.get("ok") else "other code")
+            return None
+        yield {"calls": hist_d}, oracle_deep
     for hist in ([ok, bad, ok], [bad, ok], [ok, ok], [bad, bad, ok]):
         case = {"calls": hist}
 
